@@ -1,4 +1,5 @@
 (* C11 model driver (binary64 instance of coq/Cxx/C11_Defs.v).
+   argv.(1): clamp variant, 1 = fan bases guarded by std::max(0., .), 0 = unguarded
    input lines (doubles as 16 hex digits of the bit pattern):
      S gamma rhoL uL PL rhoR uR PR dxdt   -> flag rho u P # code Pstar ustar guess gbranch nnewton nbrent hit   (or "# vac")
      W gamma rhoL uL PL rhoR uR PR        -> W code Pstar ustar l1 l2 contact r1 r2 shockL shockR gbranch nnewton nbrent hit
@@ -22,6 +23,8 @@ let star_txt st =
   Printf.sprintf "%d %s %s %s %d %d %d %d" (int_of_z st.st_code) (hx st.st_P) (hx st.st_u) (hx st.st_guess)
     (int_of_z st.st_guess_branch) (int_of_z st.st_newton) (int_of_z st.st_brent) (b01 st.st_brent_bound_hit)
 
+let clamp = Array.length Sys.argv > 1 && Sys.argv.(1) = "1"
+
 let () =
   try
     while true do
@@ -33,11 +36,11 @@ let () =
         let rhoL = fl w.(2) and uL = fl w.(3) and pL = fl w.(4) and rhoR = fl w.(5) and uR = fl w.(6) and pR = fl w.(7) in
         match w.(0) with
         | "S" when n >= 9 ->
-          let ((((flag, r), u), p), st) = f_solve pw cst c nfuel bfuel rhoL uL pL rhoR uR pR (fl w.(8)) in
+          let ((((flag, r), u), p), st) = f_solve pw cst c clamp nfuel bfuel rhoL uL pL rhoR uR pR (fl w.(8)) in
           Printf.printf "%d %s %s %s # %s\n" (int_of_z flag) (hx r) (hx u) (hx p)
             (match st with None -> "vac" | Some st -> star_txt st)
         | "W" ->
-          let (_, st) = f_solve pw cst c nfuel bfuel rhoL uL pL rhoR uR pR (fl "0") in
+          let (_, st) = f_solve pw cst c clamp nfuel bfuel rhoL uL pL rhoR uR pR (fl "0") in
           (match st with
            | None ->
              let (((a, b), c2), d) = f_vacgen pw cst c rhoL uL pL rhoR uR pR in
